@@ -202,7 +202,10 @@ pub fn load(dir: &Path, tier: Tier) -> Result<Catalogue, String> {
     // length-only) confuses these with the keyword once both have been seen in one process
     let mut n_near = 0;
     for s in &base {
-        if !s.id.starts_with('k') || s.text.is_empty() {
+        // every base source that is a single word: the keyword spellings (ids k..) and the
+        // words that occur as test literals (`eq`, `ne`, `data` ... - the snapshot tool
+        // de-duplicates by text, so the mnemonic operators carry a t.. id)
+        if s.text.len() < 2 || s.text.len() > 24 {
             continue;
         }
         let (pct, word) = match s.text.strip_prefix('%') {
